@@ -18,9 +18,9 @@ for case in roots:
     r = run.worker_task((hname, case, [[]], maxp, None, 5, 0))
     if prof: prof.disable()
     print(case, {k: (round(v, 2) if isinstance(v, float) else v) for k, v in r["stats"].items()}, "left", len(r["leftover"]), "err", r["error"])
-    for v in r["violations"][:5]: print("  VIOL", v)
-    for m in r["mismatches"][:3]: print("  MISMATCH", m)
-    for w in r["witnesses"][:2]: print("  wit", w)
+    for v in r["violations"][:5]: print("  VIOL", str(v)[:400])
+    for m in r["mismatches"][:3]: print("  MISMATCH", str(m)[:600])
+    for w in r["witnesses"][:2]: print("  wit", str(w)[:300])
 print("wall", round(time.time() - t0, 2))
 if prof:
     pstats.Stats(prof).sort_stats("cumulative").print_stats(35)
